@@ -6,7 +6,8 @@
   (b) rule code uses only members present in both input families (memory_input, buffer_input), apart from the
       documented memory-only places;
   (c) buffer_input: window arithmetic of require()/discard()/size()/empty()/end()/bump*() (sa/bufinput.py, B6);
-  (d) string_input, read_input, mmap_input, file_input, argv_input, istream_input, cstream_input add constructors only."""
+  (d) string_input, read_input, mmap_input, file_input, argv_input, istream_input, cstream_input add constructors only;
+  (e) the stdio reader and the mmap holder give an empty input for a zero-length file (under the ISO C / POSIX contracts of fread and mmap)."""
 import collections
 from .. import core, units, bufinput, repo_units
 from . import c03
@@ -44,6 +45,93 @@ def iface_unit(path):
         if fn['q'].startswith(T + 'parse') or cls.startswith(T + 'parse_error') or cls.startswith(T + 'position'): continue
         walk(fn.get('body'), fn)
     return {k: sorted(v) for k, v in uses.items()}
+
+
+def empty_file_paths(db):
+    """(e) I-empty: a zero-length file must yield an empty input with every file-based input class, as an empty memory input does.
+    The stdio reader and the mmap holder are evaluated (sa/bits.py) over ( file size 0 / positive, outcome of the C library call ) under the
+    contracts of ISO C 7.21.8.1 (fread returns 0 when size or nmemb is 0) and POSIX mmap (fails with EINVAL when the length is 0)."""
+    from ..bits import Space, Interp, St, Val, Rec, Opaque, Ptr, Agg, Abort, Unmodelled, outcomes
+    out = []
+    for fn in db.order:
+        q = fn['q']
+        if q == T + 'internal::read_file_stdio::read_string':
+            sp = Space(); sp.var('size', 3); sp.var('ok', 2)
+            it = Interp(db, sp)
+            state = {'len': None}
+            def size_(itp, e, ov, av, st): return iter([(Val({0: [0, 1, 2]}), st)])
+            def resize(itp, e, ov, av, st):
+                st.env['strlen'] = av[1]; return iter([(Opaque('void'), st)])
+            def data(itp, e, ov, av, st):
+                if isinstance(ov, Opaque) and ov.tag == 'str0': return iter([(Ptr('buf', 0), st)])
+                return None
+            def ssize(itp, e, ov, av, st):
+                if isinstance(ov, Opaque) and ov.tag == 'str0': return iter([(st.env.get('strlen', Val.const(0)), st)])
+                return None
+            def fread(itp, e, ov, av, st):
+                ln = av[1]
+                def g():
+                    for z, s1 in itp.compare('==', ln, Val.const(0), st):
+                        if z: s1.eff = s1.eff + (('fread', 0),); yield Val.const(0), s1       # ISO C: nothing is read, 0 is returned
+                        else:
+                            for b, s2 in itp.split(sp.restrict(1, ((1, 1),)), s1):
+                                s2.eff = s2.eff + (('fread', 1),); yield Val.const(1 if b else 0), s2
+                return g()
+            def errno_(itp, e, ov, av, st): return iter([(Ptr('errno', 0), st)])
+            it.intercept.update({T + 'internal::read_file_stdio::size': size_, T + 'internal::resize_uninitialized': resize, 'data': data, 'size': ssize, 'fread': fread, '__errno_location': errno_})
+            it.construct_hook = lambda e, av=None, st=None: ((e.get('cq') or '').startswith('std::basic_string') if av is None else iter([(Opaque('str0'), st)]))
+            st = St(sp.full()); st.env['this'] = Rec({'m_file': Opaque('file'), 'm_path': Opaque('path')})
+            try:
+                res = outcomes(it, fn, st)
+            except Unmodelled as e:
+                out.append(('read_file_stdio::read_string', None, str(e))); continue
+            probs = []
+            zero = sp.restrict(0, ((0, 0),))
+            for kind, v, s in res:
+                if sp.AND(s.cond, zero) is not None and kind != 'return':
+                    probs.append('for a file of size 0 the read ends with %s: read_input raises where memory, mmap and file inputs give an empty input (std::fread( p, 0, 1, f ) returns 0, which is not an error)' % kind)
+                pos = sp.AND(s.cond, sp.DIFF(sp.full(), zero))
+                if pos is not None and kind == 'return' and not any(e2[0] == 'fread' for e2 in s.eff):
+                    probs.append('a non-empty file is returned without reading it')
+            out.append(('read_file_stdio::read_string', sorted(set(probs)), None))
+        elif q == T + 'internal::mmap_file_posix::mmap_file_posix' and len(fn['params']) == 1 and 'mmap_file_open' in fn['params'][0]['t']:
+            sp = Space(); sp.var('size', 3); sp.var('ok', 2)
+            it = Interp(db, sp)
+            def msize(itp, e, ov, av, st): return iter([(Val({0: [0, 1, 2]}), st)])
+            def mmap(itp, e, ov, av, st):
+                ln = av[1]
+                def g():
+                    for z, s1 in itp.compare('==', ln, Val.const(0), st):
+                        if z: yield Val.const(-1), s1                                        # POSIX: EINVAL, MAP_FAILED
+                        else:
+                            for b, s2 in itp.split(sp.restrict(1, ((1, 1),)), s1): yield Val.const(4096 if b else -1), s2
+                return g()
+            def errno_(itp, e, ov, av, st): return iter([(Ptr('errno', 0), st)])
+            it.intercept.update({T + 'internal::mmap_file_open::size': msize, 'mmap': mmap, '__errno_location': errno_})
+            st = St(sp.full())
+            st.env[fn['params'][0]['id']] = Rec({'m_fd': Val.const(3), 'm_path': Opaque('path')})
+            probs = []
+            try:
+                # member initialisers in order, each seeing the members before it, then the body
+                states = [st]; st.env['this'] = Rec({})
+                for ini in fn['inits']:
+                    nxt = []
+                    for s0 in states:
+                        for v, s1 in it.ev(ini['e'], s0):
+                            if isinstance(v, Abort): raise Unmodelled('initialiser aborts')
+                            s1.env['this'] = s1.env['this'].with_(ini['field'], v); nxt.append(s1)
+                    states = nxt
+                res = [o for s0 in states for o in it.run(fn['body'], s0)]
+            except Unmodelled as e:
+                out.append(('mmap_file_posix::mmap_file_posix', None, str(e))); continue
+            zero = sp.restrict(0, ((0, 0),))
+            for kind, v, s in res:
+                if sp.AND(s.cond, zero) is not None and kind not in ('fall', 'return'):
+                    probs.append('for a file of size 0 the mapping ends with %s: mmap_input / file_input raise where the other input classes give an empty input (mmap of length 0 fails by definition)' % kind)
+                okmap = sp.AND(sp.AND(s.cond, sp.DIFF(sp.full(), zero)), sp.restrict(1, ((0, 0),)))
+                if okmap is not None and kind in ('fall', 'return'): probs.append('a failed mmap of a non-empty file is not reported')
+            out.append(('mmap_file_posix::mmap_file_posix', sorted(set(probs)), None))
+    return out
 
 
 def run(tier):
@@ -122,8 +210,17 @@ def run(tier):
         if extra or r['fields']:
             R.violation('I2', '%s.hpp::%s' % (base, base), '%s declares %s beyond its constructors: derived input classes must not change what rules see' % (base, extra + [f['n'] for f in r['fields']]), {'record': k})
     R.cov['derived_input_classes'] = found
+    # (e) empty files
+    ne = 0
+    for name, probs, broken in empty_file_paths(db):
+        if broken is not None:
+            R.broke('%s: %s' % (name, broken)); continue
+        ne += 1
+        R.ob(ok=not probs, key=('empty', name))
+        for pmsg in probs: R.violation('I-empty', 'internal/%s' % name.replace('::', '.hpp::', 1), pmsg, key=('empty', name, pmsg))
+    if ne < 2: R.broke('only %d of the two file readers analysed for empty files' % ne)
     if found < 7: R.broke('only %d of the 7 derived input classes found' % found)
-    R.assumptions = ['file-system and stream behaviour (mmap of empty files, page boundaries, fread errors) are not properties of this source and are not decided',
+    R.assumptions = ['file-system and stream behaviour beyond the stated C library contracts (fread of zero bytes returns 0; mmap of length 0 fails) is not a property of this source and is not decided',
                      'readers honour their contract: write at most `length` bytes, return the number written, zero only at end of input',
                      'the general form of amount adequacy (every read within the requested amount) needs value reasoning and is not decided; the narrow form B3 is']
     return R.finish(
